@@ -8,6 +8,26 @@ import os
 ROOT = os.path.dirname(os.path.dirname(os.path.abspath(__file__)))
 
 CHECKS = {
+    "C20": dict(
+        category="model_checking",
+        technique="exhaustive enumeration of the logger component's option, level and format-string products, and an "
+                  "explicit-state BFS plus all operation sequences up to the depth bound over {factory call, reopenFiles, "
+                  "closeFiles, drop reference}, each case executed on the real component and compared with an "
+                  "independent reference model (level table, handler decision table, Python's own rendering of the "
+                  "format, registry model)",
+        text="Within the stated bounds every accepted <logger>/<eventlog>/<logfile> configuration yields the logger of "
+             "the configured name with the configured numeric level, propagate flag and one handler per section in "
+             "order with the documented class, attributes, level and rendering; factories are idempotent; level "
+             "names / integers follow the documented table; the STDOUT/STDERR and old-files refusals hold; a format "
+             "accepted at load time builds and formats an ordinary record; the reopenable-handler registry equals the "
+             "live unclosed file handlers after every operation sequence (states / transitions of the registry BFS "
+             "reported).",
+        note="Trusted: vz/ref/logmodel.py, CPython's logging.Formatter / string.Template as the rendering oracle.  "
+             "The exception class of a load-time format refusal is not compared (statement silent).  Unspecified "
+             "option combinations (interval without when, both when and max-size, old-files alone, neutral-valued "
+             "options on STDOUT) are checked for totality only.  syslog / NT handlers are not instantiated.  Two open "
+             "known findings (findings.d/C20.json).",
+        design="DESIGN.md section 3, C20; tools/notes/C20.md", engine="E2 bfs"),
     "C09": dict(
         category="exploration",
         technique="exhaustive enumeration (E1) of all strings up to a per-type bound over per-type class-representative "
